@@ -98,6 +98,31 @@ fn spelled_first_element(rng: &mut Rng) -> GElem {
     }
 }
 
+/// a first element whose dictionary entry is a *virtual* VR (US-or-SS, OB-or-OW, US-or-OW),
+/// encoded with each of the concrete VRs the entry allows
+fn virtual_first_element(rng: &mut Rng) -> Option<GElem> {
+    const TAGS: [(u16, u16); 9] = [
+        (0x0028, 0x0106), (0x0028, 0x0107), (0x0028, 0x0120), (0x0028, 0x1101), (0x0028, 0x3006),
+        (0x5400, 0x1010), (0x6000, 0x3000), (0x7FE0, 0x0010), (0x0028, 0x0108),
+    ];
+    let tag = *rng.pick(&TAGS);
+    let entry = StandardDataDictionary.by_tag(Tag(tag.0, tag.1))?;
+    let choices: &[VR] = match entry.vr() {
+        VirtualVr::Xs => &[VR::US, VR::SS],
+        VirtualVr::Ox | VirtualVr::Px => &[VR::OB, VR::OW],
+        VirtualVr::Lt => &[VR::US, VR::OW],
+        _ => return None,
+    };
+    let vr = *rng.pick(choices);
+    let n = rng.urange(1, 6);
+    let val = match vr {
+        VR::US | VR::OW => GVal::U16((0..n).map(|_| rng.next_u32() as u16).collect()),
+        VR::SS => GVal::I16((0..n).map(|_| rng.next_u32() as i16).collect()),
+        _ => GVal::U8(rng.bytes(2 * n)),
+    };
+    Some(GElem { tag, vr, val })
+}
+
 pub fn run(cfg: &Cfg) -> Outcome {
     let tss = four_ts();
     let n = cfg.n(20_000, 400_000);
@@ -116,6 +141,12 @@ pub fn run(cfg: &Cfg) -> Outcome {
                 let first = spelled_first_element(rng);
                 ds.retain(|e| e.tag > first.tag);
                 ds.insert(0, first);
+            } else if idx % 4 == 1 {
+                if let Some(first) = virtual_first_element(rng) {
+                    ds.retain(|e| e.tag > first.tag);
+                    ds.insert(0, first);
+                    l.count("virtual_vr_first_elements", 1);
+                }
             }
             for (enc_ts, enc_tc) in [(Ts::ExplicitLe, &tss[1]), (Ts::ImplicitLe, &tss[0])] {
                 let dsm = if enc_ts == Ts::ImplicitLe { undefine_foreign_sq(&ds) } else { ds.clone() };
@@ -133,7 +164,8 @@ pub fn run(cfg: &Cfg) -> Outcome {
                 }
                 let first = &ds[0];
                 let known = StandardDataDictionary.by_tag(Tag(first.tag.0, first.tag.1)).is_some();
-                l.class(format!("{}|first-vr={}|known={}|near={}", enc_ts.name(), first.vr, known, near));
+                let virt = StandardDataDictionary.by_tag(Tag(first.tag.0, first.tag.1)).map(|e| !matches!(e.vr(), VirtualVr::Exact(_))).unwrap_or(false);
+                l.class(format!("{}|first-vr={}|known={}|near={}|virtual={}", enc_ts.name(), first.vr, known, near, virt));
                 let reference = match tokens(&enc.bytes, &enc_tc.ts, false) {
                     Ok(t) => t,
                     Err(_) => { l.count("reference_reader_failed_skipped", 1); continue; }
@@ -167,7 +199,7 @@ pub fn run(cfg: &Cfg) -> Outcome {
     );
     let mut o = Outcome::new(
         local,
-        "G-DS data sets (plus deliberately near-ambiguous first elements whose implicit length bytes spell a VR code) encoded by the reference encoder in Explicit VR LE and Implicit VR LE; token stream with flexible_decoding(true) (declared as either little-endian syntax) must equal the plain explicit/implicit reader's; streams ambiguous per the statement (length bytes spell a VR compatible with the dictionary entry, or tag unknown) are excluded and counted; class = (encoding, first VR, first tag known, near-ambiguous)",
+        "G-DS data sets (plus deliberately near-ambiguous first elements whose implicit length bytes spell a VR code, and first elements whose dictionary entry is a virtual VR, in each concrete VR it allows) encoded by the reference encoder in Explicit VR LE and Implicit VR LE; token stream with flexible_decoding(true) (declared as either little-endian syntax) must equal the plain explicit/implicit reader's; streams ambiguous per the statement (length bytes spell a VR compatible with the dictionary entry, or tag unknown) are excluded and counted; class = (encoding, first VR, first tag known, near-ambiguous)",
     );
     o.min_evaluations = 2000;
     o.min_classes = 40;
